@@ -93,6 +93,8 @@ func holdFrom(i int) Event         { return Event{Kind: EvHoldFrom, Node: uint8(
 func holdTo(i, j int) Event        { return Event{Kind: EvHoldFrom, Node: uint8(i), Peer: uint8(j)} } // only messages from i to j
 func flush() Event                 { return Event{Kind: EvFlush} }
 func deliverHeld(i, j int) Event   { return Event{Kind: EvDeliverHeld, Node: uint8(i), Peer: uint8(j)} }
+func dupHeld(i, j int) Event       { return Event{Kind: EvDupHeld, Node: uint8(i), Peer: uint8(j)} }
+func readyStep(i int) Event        { return Event{Kind: EvReady, Node: uint8(i)} }
 func sendSnap(i, j int) Event      { return Event{Kind: EvSendSnap, Node: uint8(i), Peer: uint8(j)} }
 func pauseAppend(i, on int) Event  { return Event{Kind: EvPauseAppend, Node: uint8(i), Arg: uint16(on)} }
 func confMixed(i, k, n int) Event  { return Event{Kind: EvProposeConf, Node: uint8(i), Peer: uint8(n), Arg: uint16(k)} }
@@ -274,6 +276,20 @@ func scriptSnapshotOvertakes() []Event {
 	d13 := deliverHeld(1, 3)
 	return seq(camp(1), prop(1), isolate(3), prop(1), prop(1), compact(1, 0), heal(), holdTo(1, 3), prop(1), d13 /* probe, rejected */, pauseAppend(3, 1), d13, /* first snapshot, queued */
 		prop(1), prop(1), compact(1, 0), sendSnap(1, 3), d13, d13, d13, d13 /* second snapshot queued behind it */, pauseAppend(3, 0), prop(1), flush(), prop(1))
+}
+
+// scriptSnapshotFigure8: node 1 leads term 1 and appends two entries nobody sees; node 3 leads
+// term 2 (node 2's vote) and appends two entries nobody sees; node 1 leads term 3, commits its
+// term-1 entries with node 2, and its application – paging one entry per Ready – snapshots and
+// compacts at the second of them. Node 3 returns with a tail whose last term (2) is higher than
+// the term of the snapshot's entry (1).
+func scriptSnapshotFigure8() []Event {
+	return seq(camp(1), isolate(1), prop(1), prop(1),
+		holdTo(3, 2), camp(3), deliverHeld(3, 2), prop(3),
+		heal(), isolate(3), crash(1, 0), camp(1),
+		holdTo(2, 1), camp(1), deliverHeld(2, 1), deliverHeld(2, 1),
+		pauseReady(1, 1), deliverHeld(2, 1), readyStep(1), readyStep(1), compact(1, 0), pauseReady(1, 0),
+		heal(), tick(1), tick(1), prop(1), tick(1), prop(1))
 }
 
 // scriptSnapshotDivergent: the follower that needs a snapshot is a deposed leader
@@ -497,6 +513,13 @@ func scriptReadSingleton() []Event {
 // scriptReadRemovedLeader: two voters; the leader removes itself and (without
 // StepDownOnRemoval) keeps leading a group it is no member of, while the remaining
 // voter elects itself and commits.
+// scriptReadStaleAcksAcrossConf: copies of the heartbeat responses that confirmed a first read
+// stay in the network; the leader applies a configuration change, is cut off and deposed; a second
+// read is issued at it and only then do the old copies arrive.
+func scriptReadStaleAcksAcrossConf() []Event {
+	return seq(camp(1), prop(1), holdTo(2, 1), holdTo(3, 1), read(1), dupHeld(2, 1), dupHeld(3, 1), heal(), conf(1, 0), prop(1), isolate(1), camp(2), prop(2), read(1), flush(), heal(), read(1), read(2))
+}
+
 func scriptReadRemovedLeader() []Event {
 	return seq(camp(1), prop(1), read(1), conf(1, 0), prop(2), read(1), camp(2), prop(2), read(1), read(2))
 }
@@ -600,6 +623,13 @@ func scriptBatchThenConf() []Event {
 // leader arrives, and right after it a vote request from another node.
 func scriptSnapLease() []Event {
 	return seq(ticks(1, 3), prop(1), isolate(3), prop(1), prop(1), compact(1, 0), heal(), tick(1), ticks(3, 4), flush(), camp(2), prop(2), roundTicks(3, 1))
+}
+
+// scriptCheckQuorumSnapshotPeer: a CheckQuorum leader has a snapshot on its way to node 3 (slow,
+// outcome never reported) when it loses contact with everybody: a peer awaiting a snapshot is not
+// a peer heard from.
+func scriptCheckQuorumSnapshotPeer() []Event {
+	return seq(ticks(1, 3), prop(1), isolate(3), prop(1), prop(1), compact(1, 0), heal(), tick(1), tick(1), isolate(1), ticks(1, 8), ticks(2, 4), heal(), flush(), roundTicks(3, 2), prop(2))
 }
 
 // scriptCandidateSnapshot: a node becomes (pre-)candidate while a snapshot from the
@@ -904,6 +934,14 @@ func poolSnapshot(tier string) (p pool) {
 			cb.NoClone = true
 			p.dd = append(p.dd, cb)
 		}
+		if !f.async {
+			c := f.cfg()
+			c.MaxCommittedSize = 1
+			c.ElectionTick, c.HeartbeatTick, c.Timeout = 10, 1, 10
+			f8 := ddScn("snapshot-figure8", 3, ids(3), f, scriptSnapshotFigure8(), k, int(BDrop), 1, int(BDup), 1)
+			f8.Cfg = []NodeCfg{c}
+			p.dd = append(p.dd, f8)
+		}
 		if f.async {
 			p.dd = append(p.dd, ddScn("snapshot-overtakes", 3, ids(3), f, scriptSnapshotOvertakes(), k, fl...))
 		}
@@ -1008,6 +1046,9 @@ func poolRead(tier string) (p pool) {
 		rl := ddScn("read-removed-leader", 2, ids(2), f, scriptReadRemovedLeader(), k, int(BRead), 1, int(BDrop), 1, int(BPropose), 1)
 		rl.ConfMenu = []ConfSpec{{Changes: "r1"}}
 		p.dd = append(p.dd, rl)
+		sa := ddScn("read-stale-acks-across-conf", 4, ids(3), f, scriptReadStaleAcksAcrossConf(), k, int(BRead), 1, int(BDrop), 1, int(BDup), 1)
+		sa.ConfMenu = []ConfSpec{ccAddLearner4}
+		p.dd = append(p.dd, sa)
 		// the leader demotes itself to a learner, leaving one voter: it keeps leading (and has a
 		// progress entry) but is not the sole voter
 		dl := ddScn("read-demoted-leader", 2, ids(2), f, seq(camp(1), prop(1), read(1), conf(1, 0), prop(2), read(1), isolate(1), camp(2), prop(2), read(1), heal(), read(1), read(2)), k, int(BRead), 1, int(BDrop), 1, int(BPropose), 1)
@@ -1067,6 +1108,14 @@ func poolFlow(tier string) (p pool) {
 			p.dd = append(p.dd, ir)
 		}
 	}
+	// byte window towards a peer that was added by a conf change during the current leadership
+	for _, f := range []feat{syncF, asyncF} {
+		c := flowCfg(f, 8, 40, 60, 0)
+		s := confSc("flow-added-peer", f, seq(camp(1), prop(1), conf(1, mAddVoter4), prop(1), prop(1), isolate(4), prop(1), prop(1), prop(1), prop(1), prop(1), prop(1), heal(), prop(1)), k, defaultFaults...)
+		s.Cfg = []NodeCfg{c}
+		s.PropSizes = []int{4, 4, 4, 30, 30, 30, 30, 30, 30, 4, 4}
+		p.dd = append(p.dd, s)
+	}
 	for _, f := range []feat{syncF, asyncF} {
 		su := tickSnap(ddScn("snapshot-unreachable", 3, ids(3), f, scriptSnapshotUnreachable(), k, defaultFaults...))
 		su.SlowSnap = true
@@ -1107,6 +1156,11 @@ func poolTick(tier string) (p pool) {
 	}
 	for _, f := range []feat{cqF, pvcqF} {
 		p.dd = append(p.dd, tickSc("checkquorum-reports", 3, f, scriptCheckQuorumReports(), k, tb...))
+	}
+	for _, f := range []feat{cqF, pvcqF} {
+		sp := tickSc("checkquorum-snapshot-peer", 3, f, scriptCheckQuorumSnapshotPeer(), k, tb...)
+		sp.SlowSnap = true
+		p.dd = append(p.dd, sp)
 	}
 	for _, f := range []feat{cqF, pvcqF} {
 		sl := tickSc("snap-lease", 3, f, scriptSnapLease(), k, tb...)
